@@ -132,10 +132,14 @@ def run_store_states(ctx: Ctx, focus: str, quick: bool) -> None:
             if len(hist) >= 5 and deleted:
                 ctx.sample({"hist": hist, "expected_document": exp})
             check_hugr(ctx, focus, ad.h[1], {"hist": hist}, {"source": "store-state", "deleted": deleted}, exp, foreign, exact_order=not deleted)
-        small = c04.cfg(["a"] if quick else ["a", "const"], ["none", "m"] if not quick else ["none"], "OffsetsTwo", 3, 2, [1], False, 40, "CountsOne",
-                        emit=None, laws=False, samplek=(12 if quick else 6))
-        res = run_tlc("MC_HugrSerial", small + "INVARIANT EmitSerial\n", wd, workers=1, heap="8g", line_sink=sink, timeout=2400)
-        tlc_must_hold(ctx, "S2C expected documents of store states", res, "HugrSerial (emission)")
+        if quick:
+            confs = [(["a"], ["none"], 3, 2, 12), (["a", "call", "loadf", "loadc"], ["none"], 3, 1, 5)]
+        else:
+            confs = [(["a", "const"], ["none", "m"], 3, 2, 6), (["a", "call", "loadf", "loadc", "const"], ["none", "m"], 3, 1, 3), (["a", "call"], ["none"], 4, 1, 10)]
+        for toks, metas, mn, ml, k in confs:
+            small = c04.cfg(toks, metas, "OffsetsTwo", mn, ml, [1], False, 40, "CountsOne", emit=None, laws=False, samplek=k)
+            res = run_tlc("MC_HugrSerial", small + "INVARIANT EmitSerial\n", wd, workers=1, heap="8g", line_sink=sink, timeout=2400)
+            tlc_must_hold(ctx, f"S2C expected documents of store states ops={toks} links<={ml}", res, "HugrSerial (emission)")
         ctx.note("store_states_checked", n[0])
         if n[0] < 300:
             raise MachineryError(f"only {n[0]} store states emitted")
@@ -161,14 +165,16 @@ def run_random_histories(ctx: Ctx, focus: str, quick: bool) -> None:
             i = 1 if rng.random() < 0.8 else 2
             r = rng.random()
             if r < 0.35 and len(live[i]) < 10:
-                o = rng.choice(["a", "a", "const"])
+                o = rng.choice(["a", "a", "const", "call", "loadf", "loadc"])
                 cand = [n for n in live[i] if n == 0 or True]
                 ev = {"a": "AddNode", "i": i, "p": rng.choice(cand), "o": o, "cnt": -1 if o == "const" else rng.choice([-1, 2]),
                       "m": rng.choice(["none", "m", "u"])}
             elif r < 0.65:
                 # only ports the operations have: 'a' has value ports 0,1 and order ports; 'const' has static out 0; root has none
-                srcs = [(n, o) for n in live[i] for o in ((-1, 0, 1) if ad.optok[i][n] == "a" else ((0,) if ad.optok[i][n] == "const" else ()))]
-                dsts = [(n, o) for n in live[i] for o in ((-1, 0, 1) if ad.optok[i][n] == "a" else ())]
+                OUT = {"a": (-1, 0, 1), "const": (0,), "call": (-1, 0, 1), "loadf": (-1, 0), "loadc": (-1, 0)}
+                IN = {"a": (-1, 0, 1), "call": (-1, 0, 1, 2), "loadf": (-1, 0), "loadc": (-1, 0)}
+                srcs = [(n, o) for n in live[i] for o in OUT.get(ad.optok[i][n], ())]
+                dsts = [(n, o) for n in live[i] for o in IN.get(ad.optok[i][n], ())]
                 if not srcs or not dsts:
                     continue
                 s, d = rng.choice(srcs), rng.choice(dsts)
